@@ -223,3 +223,132 @@ def first_divergence(a: str, b: str):
             lo = max(0, k - 60)
             return {"section": name, "at": k, "impl": x[lo:k + 100], "model": y[lo:k + 100]}
     return {"section": "?", "impl": a[:100], "model": b[:100]}
+
+
+# --------------------------------------------------------------------------- version histories
+from sqlite_dissect.file.wal.wal import WriteAheadLog
+from sqlite_dissect.version_history import VersionHistory
+
+
+def b01(b):
+    return "1" if b else "0"
+
+
+def show_flags(v):
+    if v.version_number == 0:
+        return "cc0,sz0,ft-,fp-,lr-,ck0,sf0,te0,uv0"
+    return (f"cc{b01(v.file_change_counter_incremented and v.version_valid_for_number_incremented)},"
+            f"sz{b01(v.database_size_in_pages_modified)},ft{opt(v.modified_first_freelist_trunk_page_number)},"
+            f"fp{opt(v.modified_number_of_freelist_pages)},lr{opt(v.modified_largest_root_b_tree_page_number)},"
+            f"ck{b01(v.schema_cookie_modified)},sf{b01(v.schema_format_number_modified)},"
+            f"te{b01(v.database_text_encoding_modified)},uv{b01(v.user_version_modified)}")
+
+
+def version_sections(v, with_trees=True):
+    k = v.version_number
+    enc_name = v.database_text_encoding
+    enc_num = {None: 0, "utf-8": 1, "utf-16-le": 2, "utf-16-be": 3}[enc_name]
+    trunks = []
+    t = v.first_freelist_trunk_page
+    while t:
+        trunks.append(f"{t.number}:{t.next_freelist_trunk_page_number}:[{','.join(map(str, t.freelist_leaf_page_numbers))}]")
+        t = t.next_freelist_trunk_page
+    pm = "|".join(
+        f"{p.number}:{p.number_of_entries}:" + ",".join(
+            f"{e.page_number}/{e.page_type[0]}/{e.parent_page_number}" for e in p.pointer_map_entries)
+        for p in v.pointer_map_pages)
+    pfi = getattr(v, "page_frame_index", {}) or {}
+    size = v.database_size_in_pages
+    secs = [
+        f"V{k}.hdr=" + show_hdr(v.database_header),
+        f"V{k}.size={int(size)}",
+        f"V{k}.ps={v.page_size}",
+        f"V{k}.enc={enc_num}",
+        f"V{k}.updated=" + ",".join(map(str, v.updated_page_numbers)),
+        f"V{k}.pvi=" + ",".join(f"{a}:{b}" for a, b in v.page_version_index.items()),
+        f"V{k}.pfi=" + ",".join(f"{a}:{b}" for a, b in pfi.items()),
+        f"V{k}.mod=h{b01(v.database_header_modified)}r{b01(v.root_b_tree_page_modified)}s{b01(v.master_schema_modified)}"
+        f"f{b01(v.freelist_pages_modified)}p{b01(v.pointer_map_pages_modified)}",
+        f"V{k}.flags=" + show_flags(v),
+        f"V{k}.freelist=" + "|".join(trunks),
+        f"V{k}.flnums=" + ",".join(map(str, v.freelist_page_numbers)),
+        f"V{k}.ptrmap=" + pm,
+    ]
+    try:
+        ms = v.master_schema
+    except Exception as e:  # noqa
+        secs.append(f"V{k}.schema=" + err(e))
+        return secs
+    secs += [
+        f"V{k}.schema=" + "|".join(show_schema_row(e, enc_name) for e in ms.master_schema_entries),
+        f"V{k}.schemapages=" + ",".join(f"{p.number}:{p.page_type}" for p in ms.master_schema_pages),
+        f"V{k}.roots=" + ",".join(map(str, ms.master_schema_b_tree_root_page_numbers)),
+        f"V{k}.updbt=" + ",".join(map(str, v.updated_b_tree_page_numbers)),
+        f"V{k}.tree1=" + show_tree(ms.root_page, v),
+    ]
+    try:
+        pages = v.pages
+        secs.append(f"V{k}.census=" + ",".join(f"{n}:{p.page_type}" for n, p in pages.items()))
+    except Exception as e:  # noqa
+        secs.append(f"V{k}.census=" + err(e))
+        return secs
+    if with_trees:
+        for r in ms.master_schema_b_tree_root_page_numbers:
+            try:
+                root = v.get_b_tree_root_page(r)
+                secs.append(f"V{k}.tree{r}=" + show_tree(root, v))
+            except Exception as e:  # noqa
+                secs.append(f"V{k}.tree{r}=" + err(e))
+    return secs
+
+
+def wal_sections(w):
+    h = w.file_handle.header
+    fr = "|".join(
+        f"{f.frame_index}:p{f.header.page_number}:sz{f.header.page_size_after_commit}:s{f.header.salt_1}/{f.header.salt_2}"
+        f":c{f.header.checksum_1}/{f.header.checksum_2}:cr{opt(f.commit_record_number)}" for f in w.frames.values())
+    inv = "|".join(
+        f"{f.frame_index}:p{f.header.page_number}:sz{f.header.page_size_after_commit}:s{f.header.salt_1}/{f.header.salt_2}"
+        for f in w.invalid_frames.values())
+    idx = ",".join(f"{s}:{a}-{b}" for s, (a, b) in w.invalid_frame_indices.items())
+    return [
+        f"wal.hdr=m{h.magic_number},fv{h.file_format_version},ps{h.page_size},cs{h.checkpoint_sequence_number},"
+        f"s1{h.salt_1},s2{h.salt_2},c1{h.checksum_1},c2{h.checksum_2}",
+        f"wal.nframes={w.number_of_frames}",
+        "wal.frames=" + fr,
+        "wal.invalid=" + inv,
+        "wal.invidx=" + idx,
+    ]
+
+
+def stage_err(stage, e):
+    if in_schema_sql(e):
+        return f"{stage}:err @schema-sql " + classify(e)
+    return f"{stage}:" + err(e)
+
+
+def dump_history(db_path, wal_path, mem=False, strict=True, size=None, wal_size=None, with_trees=True):
+    """Returns (canonical string, VersionHistory or None, exception or None)."""
+    try:
+        db = Database(db_path, store_in_memory=mem, file_size=size, strict_format_checking=strict)
+    except Exception as e:  # noqa
+        return stage_err("db", e), None, e
+    wal = None
+    if wal_path:
+        try:
+            wal = WriteAheadLog(wal_path, store_in_memory=mem, file_size=wal_size, strict_format_checking=strict)
+        except Exception as e:  # noqa
+            return stage_err("wal", e), None, e
+    try:
+        vh = VersionHistory(db, wal)
+    except Exception as e:  # noqa
+        return stage_err("vh", e), None, e
+    try:
+        secs = wal_sections(wal) if wal else []
+        secs.append(f"nversions={len(vh.versions)}")
+        for k in sorted(vh.versions):
+            secs += version_sections(vh.versions[k], with_trees)
+        return "ok " + SEP.join(secs), vh, None
+    except Exception as e:  # noqa
+        traceback.print_exc()
+        return "dump-failed " + classify(e), vh, e
